@@ -287,6 +287,8 @@ def rand_case(rng):
         case['sepnone'] = True
     if case['_colmode'] == 'header+outfmt' and rng.random() < 0.6:
         case['hdrperm'] = True
+    if rng.random() < 0.12:
+        case['comments'] = True
     if rng.random() < 0.1:
         case['crlf'] = True
     if rng.random() < 0.1:
@@ -400,6 +402,9 @@ def impl(case):
     from sugar import read_fts
     content, kw = render(case)
     d = case['_d']
+    cm = None
+    if case.get('comments'):
+        cm = kw['comments'] = []
     if case.get('_via') == 'file' and all(ord(c) < 128 for c in content):
         fd, path = tempfile.mkstemp(prefix='C11-', suffix='.txt', dir='/tmp')
         try:
@@ -419,6 +424,9 @@ def impl(case):
         fm = ft.meta['_' + d]
         common = sorted([k, canon_v(v)] for k, v in ft.meta.items() if k not in ('_' + d, '_fmt'))
         out.append([loc.start, loc.stop, str(loc.strand), common, sorted([k, canon_v(v)] for k, v in fm.items())])
+    if cm is not None:
+        assert all(type(x) is str for x in cm)
+        return {'fts': out, 'comments': cm}
     return out
 
 
@@ -466,10 +474,16 @@ def mval(v):
 
 
 def split_model(case, m):
-    wf, r = m
+    wf, r, cm = m
     if isinstance(r, list):
         r = [[f[0], f[1], f[2], sorted([k, mval(v)] for k, v in f[3]), sorted([k, mval(v)] for k, v in f[4])] for f in r]
+        if case.get('comments'):
+            r = {'fts': r, 'comments': cm}
     return bool(wf), r
+
+
+def is_err(got):
+    return isinstance(got, dict) and 'e' in got
 
 
 # ----------------------------------------------------------------------------- property oracle (first principles)
@@ -524,6 +538,17 @@ def expect_hit(case, h):
 def spec(case, got):
     if 'content' in case:
         return None                      # raw cases are decided by the model comparison only
+    if isinstance(got, dict) and 'fts' in got:
+        # comments=[]: exactly the lines of the file that start with '#', in order, with their terminator
+        content, _ = render(case)
+        if univ(case):
+            content = content.replace('\r\n', '\n').replace('\r', '\n')
+        parts = content.split('\n')
+        lines = [x + '\n' for x in parts[:-1]] + ([parts[-1]] if parts[-1] else [])
+        want = [l for l in lines if l[:1] == '#']
+        if got['comments'] != want:
+            return 'comments: expected %r got %r' % (want, got['comments'])
+        got = got['fts']
     exp = [expect_hit(case, h) for h in case['hits']]
     errs = [e for e in exp if isinstance(e, str)]
     if errs:
@@ -568,16 +593,16 @@ def orient_key(h):
 
 def nontrivial(case, got):
     if 'content' in case:
-        return ['raw', case['_d'], got['e'] if isinstance(got, dict) else 'ok']
+        return ['raw', case['_d'], got['e'] if is_err(got) else 'ok']
     os_ = sorted(set(orient_key(h) + ':' + str(h.get('sstr')) for h in case['hits']))
-    mk = [case['_d'], case['_style'], case.get('_colmode'), bool(case.get('cols')), os_, got['e'] if isinstance(got, dict) else 'ok']
+    mk = [case['_d'], case['_style'], case.get('_colmode'), bool(case.get('cols')), os_, got['e'] if is_err(got) else 'ok']
     if mk == ['blast', '6', 'default', False, ['++:consistent'], 'ok']:
         return None
     return mk
 
 
 def histkey(case, got):
-    ks = ['dialect=' + case['_d'], 'result=' + (got['e'] if isinstance(got, dict) else 'ok')]
+    ks = ['dialect=' + case['_d'], 'result=' + (got['e'] if is_err(got) else 'ok')]
     if 'content' in case:
         ks.append('kind=raw')
     else:
@@ -639,15 +664,35 @@ def extra_checks(rng, tier, cov):
     cov['dialect_independence_reads'] = done
 
 
-LEVEL_TEXT = ('Machine-checked Coq theorems about an executable model of read_tabular: the orientation decision yields '
-              '[min(sstart,send)-1, max(sstart,send)) with strand - iff subject and query run in opposite directions (all of Z, lia), '
-              'the regenerated column tables are consistent (finite, re-checked against /repo on every run), a tokenised row gives one '
-              'typed format-metadata entry per column and the common metadata seqid/name/evalue/score, and location + common metadata '
-              'are the same function of the abstract hit in every dialect; the model is tied to sugar.read_fts by differential testing '
-              'on rendered hit lists and a mutation stream.')
-LEVEL_NOTE = ('Trusted: Coq kernel/vm_compute, tools/gens/c11.py (tables), the correspondence harness, CPython int()/float()/str methods. '
-              'Modelled rather than verified: core.py read_tabular and _headers_from_fmtstrings, the three reader wrappers. '
-              'Float values are compared as exact decimal literals (DESIGN 5.3). Dialect independence is proved on token rows; on text it is '
-              'checked by the correspondence and a relational oracle. Rows without a direction take the strand of the sstrand '
-              'column (plus/minus words mapped, commit 7bd306b), proved as C11_orient_no_direction. All theorems closed under the global context.')
+LEVEL_TEXT = ('Machine-checked Coq theorems about an executable model of read_tabular, for all integers and all strings: '
+              '(1) the orientation decision yields [min(sstart,send)-1, max(sstart,send)), strand - iff subject and query run in '
+              'opposite directions, ValueError iff an explicit sstrand contradicts, N/A -> ".", rows without direction take the sstrand '
+              'column (plus/minus mapped); (2) the regenerated column tables are consistent (finite, re-checked against /repo on every run); '
+              '(3) a tokenised row gives one typed format-metadata entry per column and the common metadata seqid/name/evalue/score; '
+              'int() of a decimal rendering returns the number; (4) ON TEXT: a BLAST outfmt 6/10 or MMseqs2 fmtmode 0 file (defaults or '
+              'outfmt=), a BLAST outfmt 7 file (# Fields: line), an MMseqs2 fmtmode 4 file (name row) and an Infernal tblout file (ruler, '
+              'column-count map, whitespace split with maxsplit keeping the description) read to exactly the row-level results, header '
+              'lines are ignored when outfmt= is given, CRLF/universal newlines do not matter; (5) read(render H) has the specified '
+              'locations, strands and common metadata for every abstract hit list H in BLAST 6/7/10, MMseqs2 0/4 and Infernal 1 default '
+              'renderings, hence equal across dialects. The model is tied to sugar.read_fts by differential testing on rendered hit '
+              'lists and a mutation stream; all statements of the modelled functions are executed in the quick tier.')
+LEVEL_NOTE = ('Trusted: Coq kernel/vm_compute, tools/gens/c11.py (tables), the correspondence harness, CPython int()/float()/str methods '
+              '(the Gallina int()/float() are compared with CPython on every case; float() is not characterised by a theorem, float values '
+              'are compared as exact decimal literals, DESIGN 5.3). Modelled rather than verified: core.py read_tabular and '
+              '_headers_from_fmtstrings, the three reader wrappers, the comments= option. Proved on text: single-block files with LF or '
+              'CRLF line ends; tested only: several "# Fields:" blocks in one BLAST 7 file, sep=None for BLAST/MMseqs2, the end-to-end '
+              'read(render H) statement for Infernal fmt 2/2old/3 and for user-chosen column subsets (their file-to-rows and rows-to-hits '
+              'halves are proved separately: C11_read_infernal / C11_read_blast7 / C11_read_mmseqs4 / C11_read_outfmt_file and '
+              'C11_rows_features_carry, C11_text_dialect_independent), the sniffers is_fts_* (property C03). '
+              'Statement coverage of the modelled functions in the quick tier: 86/86, no unreachable lines. '
+              'Rows without a direction take the strand of the sstrand column (plus/minus words mapped, commit 7bd306b). '
+              'All theorems closed under the global context.')
 TECHNIQUE = 'Coq proof (lia + finite table enumeration) over a Gallina model; differential correspondence model vs sugar.read_fts'
+
+# the Python code the Coq model covers (framework measures statement coverage of these while impl()/extra_checks run)
+MODELLED_FUNCS = {
+    'sugar/_io/tab/core.py': ['_headers_from_fmtstrings', 'read_tabular'],
+    'sugar/_io/tab/blast.py': ['read_fts_blast'],
+    'sugar/_io/tab/mmseqs.py': ['read_fts_mmseqs'],
+    'sugar/_io/tab/infernal.py': ['read_fts_infernal'],
+}
